@@ -54,8 +54,9 @@ import (
 // Armed known findings (single-manager cases only; the theorem's hypotheses are not evaluated there):
 //   stream Q1 (idx%10==7)  C19:quota-double-charge-after-namespace-unclaim: quota 3 claims namespace 90 with unlabelled pods in it, gives the
 //          claim up (or hands it to quota 4); the next update of each pod files it under its new group while quota 3 keeps it.
-//   stream Q3 (idx%10==8)  C19:quota-stale-cached-pod-migration: a pod labelled 7 (missing) held by the default group changes its label to 8
-//          (missing); then quota 8 or quota 7 appears and the migration tick resolves the CACHED first object.
+//   stream Q3 (idx%10==8)  C19:quota-stale-cached-pod-migration (FIXED by 7265fb2, must be silent now; the fingerprint stays armed): a pod
+//          labelled 7 (missing) held by the default group changes its label to 8 (missing); then quota 8 or quota 7 appears; before the
+//          fix the migration tick resolved the CACHED first object.
 // The oracle removes exactly the expected wrong charge from the live snapshot (the groups on its path are then compared in pod set and self
 // figures only), demands everything else under the generic fingerprints, and reports the armed fingerprint when only that class remains.
 //
@@ -94,6 +95,7 @@ type c19qWorld struct {
 	nextP  int
 	rvq    int
 	free   bool
+	lift2  bool // VERIF_C19Q_FREE=2: only the restrictions that existed because of the stale cached object / parked pods are lifted
 	dead   bool
 	multi  bool // stream M: MultiQuotaTree on, the case's quotas carry a tree id of their own
 	first  map[int]*c19qPod // the object the caching group saw first (QuotaInfo.PodCache never refreshes it)
@@ -464,10 +466,13 @@ func (w *c19qWorld) parents() []int {
 	return out
 }
 
-// mtBlocked (stream M only): a pod held by the default group whose cached (first) object is stale in NodeName / phase would be
-// re-added from that stale object by the cross-tree migration (OnPodDelete + OnPodAdd) and lose its assigned flag until its next
-// update - reported as a suspected defect, kept out of the strict generator.
+// mtBlocked (stream M only, restriction LIFTED since fix 7265fb2): before that fix a pod held by the default group whose cached (first)
+// object was stale in NodeName / phase was re-added from that stale object by the cross-tree migration (OnPodDelete + OnPodAdd) and lost
+// its assigned flag until its next update; such histories are generated again and fall under the generic fingerprints.
 func (w *c19qWorld) mtBlocked() bool {
+	if true { // lifted: fix 7265fb2 keeps the cached object current, the cross-tree migration re-adds the current object
+		return false
+	}
 	if !w.multi || w.free {
 		return false
 	}
@@ -692,7 +697,7 @@ func (w *c19qWorld) opPodUpdate(forceBind int) bool {
 		id = forceBind
 	}
 	old := w.pods[id]
-	if w.frozenPod[id] || (!w.free && !w.atHome(id)) {
+	if w.frozenPod[id] || (!w.free && !w.lift2 && !w.atHome(id)) {
 		return false
 	}
 	n := *old
@@ -710,10 +715,11 @@ func (w *c19qWorld) opPodUpdate(forceBind int) bool {
 		n.node = true
 		w.h.Tag("p:update-bind")
 	case 1: // in-place resize
-		if !w.free && (resident || w.resvd[id]) {
-			return false
-		}
+		// (no restriction any more: since fix 7265fb2 the cached object follows, a pod held by the default group or reserved may be resized)
 		n.req = int64(r.Range(1, 16)) * 250
+		if resident {
+			w.h.Tag("p:update-resize-while-held-by-default-group")
+		}
 		w.h.Tag("p:update-resize")
 	case 2: // label change
 		if !w.free && w.resvd[id] {
@@ -723,8 +729,8 @@ func (w *c19qWorld) opPodUpdate(forceBind int) bool {
 		if n.label == old.label {
 			return false
 		}
-		if !w.free && resident && w.res(&n) == 1 {
-			return false
+		if resident && w.res(&n) == 1 {
+			w.h.Tag("p:update-label-while-held-by-default-group") // allowed since fix 7265fb2
 		}
 		w.h.Tag("p:update-label")
 	case 3: // a pending pod fails
@@ -1016,7 +1022,7 @@ func (w *c19qWorld) cut() {
 		return
 	}
 	w.migrate(0)
-	if !w.free && !w.multi && w.armed == "" {
+	if !w.free && !w.lift2 && !w.multi && w.armed == "" {
 		w.h.Op("quota hyp")
 		w.h.Obs("hyp 1")
 	}
@@ -1323,6 +1329,7 @@ func TestVerifC19Quota(t *testing.T) {
 		return p.(*Plugin)
 	}
 	free := os.Getenv("VERIF_C19Q_FREE") == "1"
+	lift2 := os.Getenv("VERIF_C19Q_FREE") == "2"
 	n := h.N(150, 3000)
 	for idx := 0; idx < n; idx++ {
 		r := h.Begin(idx)
@@ -1330,7 +1337,7 @@ func TestVerifC19Quota(t *testing.T) {
 			continue
 		}
 		w := &c19qWorld{t: t, h: h, r: r, idx: idx, newPl: newPl, quotas: map[int]*c19qQuota{}, pods: map[int]*c19qPod{},
-			resvd: map[int]bool{}, loc: map[int]int{}, first: map[int]*c19qPod{}, nextP: 1, free: free,
+			resvd: map[int]bool{}, loc: map[int]int{}, first: map[int]*c19qPod{}, nextP: 1, free: free, lift2: lift2,
 			leak: map[[2]int]int64{}, stale: map[int]int{}, frozenPod: map[int]bool{}, frozenNs: map[int]bool{}, noCreate: map[int]bool{}, noDel: map[int]bool{}}
 		restore := func() {}
 		if idx%5 == 4 { // stream M
